@@ -46,6 +46,21 @@ var heavy = func() []byte {
 
 const heavyOps = 198 * 16
 
+// A second sigop-carrying redeem script: OP_0 OP_IF (OP_1 <00> OP_CHECKMULTISIG) x 129 OP_ENDIF OP_1 -
+// 520 bytes. A data push sits between OP_1 and OP_CHECKMULTISIG, so the accurate count must NOT take
+// the key count from OP_1: each OP_CHECKMULTISIG counts 20, 2580 per input.
+var heavy2 = func() []byte {
+	b := []byte{0x00, 0x63}
+	for i := 0; i < 129; i++ {
+		b = append(b, 0x51, 0x01, 0x00, 0xae)
+	}
+	return append(b, 0x68, 0x51)
+}()
+
+const heavy2Ops = 129 * 20
+
+var heavy2P2SH = append(append([]byte{0xa9, 0x14}, refaddr.Hash160(heavy2)...), 0x87)
+
 func pushData(d []byte) []byte {
 	switch {
 	case len(d) < 0x4c:
@@ -77,6 +92,8 @@ func verify(tx *reftx.Tx, idx int, spent []refchain.Coin, f refchain.Flags) bool
 	switch {
 	case bytes.Equal(spent[idx].Script, heavyP2SH):
 		return bytes.Equal(in.Script, pushData(heavy)) && len(in.Witness) == 0
+	case bytes.Equal(spent[idx].Script, heavy2P2SH):
+		return bytes.Equal(in.Script, pushData(heavy2)) && len(in.Witness) == 0
 	case bytes.Equal(spent[idx].Script, heavyWS):
 		if !f.Witness {
 			return len(in.Script) == 0
@@ -151,6 +168,9 @@ func buildPrefix() *chainx.Prefix {
 					so = append(so, reftx.Out{Value: 1e8, Script: heavyP2SH})
 				}
 				so = append(so, reftx.Out{Value: 1e8, Script: heavyWS}, reftx.Out{Value: 1e8, Script: heavyWS}, reftx.Out{Value: 1e8, Script: heavyP2SHW})
+				for i := 0; i < 8; i++ {
+					so = append(so, reftx.Out{Value: 1e8, Script: heavy2P2SH})
+				}
 				hv := minichain.Spend([]OP{p.Cb[9]}, so)
 				s.Txs = append(s.Txs, hv)
 				for i := 0; i < 8; i++ {
@@ -159,6 +179,9 @@ func buildPrefix() *chainx.Prefix {
 				p.Named["PW0"] = OP{Tx: hv.TxID(), Vout: 8}
 				p.Named["PW1"] = OP{Tx: hv.TxID(), Vout: 9}
 				p.Named["PSW0"] = OP{Tx: hv.TxID(), Vout: 10}
+				for i := 0; i < 8; i++ {
+					p.Named[fmt.Sprint("PT", i)] = OP{Tx: hv.TxID(), Vout: uint32(11 + i)}
+				}
 			}
 		}
 	})
@@ -384,6 +407,8 @@ func variants() []variant {
 			switch n[:2] {
 			case "PW":
 				t.In[i].Witness, wit = [][]byte{heavy}, true
+			case "PT":
+				t.In[i].Script = pushData(heavy2)
 			default:
 				if n[:3] == "PSW" {
 					t.In[i].Script, t.In[i].Witness, wit = pushData(heavyWS), [][]byte{heavy}, true
@@ -401,6 +426,18 @@ func variants() []variant {
 	}})
 	add(variant{name: "sigops-p2sh-redeem-scripts-80004", rule: "sigop cost", build: func(c *ctx) *reftx.Block {
 		return heavyBlk(c, 71, (80000-6*4*heavyOps)/4+1, p2sh6...)
+	}})
+	pt := func(k int) (l []string) {
+		for i := 0; i < k; i++ {
+			l = append(l, fmt.Sprint("PT", i))
+		}
+		return
+	}
+	add(variant{name: "sigops-p2sh-multisig-after-a-push-counts-20-72240", build: func(c *ctx) *reftx.Block {
+		return heavyBlk(c, 76, 0, pt(7)...)
+	}})
+	add(variant{name: "sigops-p2sh-multisig-after-a-push-counts-20-82560", rule: "sigop cost", build: func(c *ctx) *reftx.Block {
+		return heavyBlk(c, 77, 0, pt(8)...)
 	}})
 	add(variant{name: "sigops-p2wsh-witness-scripts-80000", build: func(c *ctx) *reftx.Block {
 		return heavyBlk(c, 72, (80000-2*heavyOps)/4, "PW0", "PW1")
